@@ -292,7 +292,7 @@ def get_ast_term(t):
                     return op_data.priority, UNARY
                 else:
                     return op_data.priority, BINARY
-            elif binder_data is not None or logic.is_if(t):
+            elif (binder_data is not None and len(t.args) == 1) or logic.is_if(t):
                 return 10, BINDER
             else:
                 return 95, FUN_APPL  # Function application
@@ -434,7 +434,7 @@ def get_ast_term(t):
                 return UnaryOp(op_ast, arg_ast, t.get_type())
 
             # Next, the case of binders
-            elif binder_data and t.arg.is_abs():
+            elif binder_data and len(t.args) == 1 and t.arg.is_abs():
                 binder_str = binder_data.unicode_op if settings.unicode else binder_data.ascii_op
                 op_ast = Binder(binder_str)
 
